@@ -14,7 +14,8 @@ def run(ctx, replay=None):
               dict(shape="chain", max_env=1, flags="m,c,e", faults=True, env="EditProfile,Expire,Edit,DeleteArt"),
               dict(shape="chain", max_env=1, flags="m,c", faults=True, env="SetIssuer,Edit")]
     else:
-        mc = [dict(shape="chain", max_env=3), dict(shape="star", max_env=3)]
+        mc = [dict(shape="chain", max_env=3), dict(shape="star", max_env=3),
+              dict(shape="chain", max_env=0, flagsets="AllFlagSets", env="EverythingEnv", simulate="num=3000,depth=100")]
         ex = [dict(shape="chain", max_env=2, flags="m,c,o", extra="a", faults=True),
               dict(shape="star", max_env=2, flags="m,c,o", faults=True),
               dict(shape="two", max_env=2, flags="m,c", faults=True),
